@@ -9,6 +9,18 @@ use std::sync::{Arc, Mutex};
 use std::task::{Context, Poll, Waker};
 use std::time::Duration;
 
+/// A key type whose `Hash` is deliberately weak (all small keys collide) while `Eq` tells
+/// them apart - within the Hash/Eq contract. Keyed layers (coalesce, cache) are driven with
+/// it so that "unequal keys never get each other's entry" does not rest on hash values.
+#[derive(Clone, Copy, Debug, PartialEq, Eq, PartialOrd, Ord)]
+pub struct WeakKey(pub u8);
+
+impl std::hash::Hash for WeakKey {
+    fn hash<H: std::hash::Hasher>(&self, state: &mut H) {
+        state.write_u8(self.0 / 8);
+    }
+}
+
 #[derive(Clone, Debug, PartialEq, Eq, Hash, PartialOrd, Ord)]
 pub struct Req {
     pub id: u32,
